@@ -42,9 +42,37 @@ def load_reviewed():
     return out
 
 
+_OWNER = {"prog": None, "cg": None, "memo": {}}
+
+
+def owner_fn(path):
+    """the function a site is attributed to: a private helper (or closure) with a single calling function belongs to
+    that caller, so that extracting part of a function into a helper does not change the key of a reviewed site"""
+    prog, cg = _OWNER["prog"], _OWNER["cg"]
+    if prog is None:
+        return path
+    if path in _OWNER["memo"]:
+        return _OWNER["memo"][path]
+    cur = cc.strip_closure(path)
+    for _ in range(6):
+        f = prog.fns.get(cur)
+        if f is None or not f.local or f.reachable or f.vis == "pub":
+            break
+        a = f.assoc or {}
+        if a.get("trait") or a.get("trait_item"):
+            break
+        callers = set(cc.strip_closure(x.fn.path) for x in cg.callers_of(cur)) - {cur}
+        for cl in [p2 for p2 in prog.fns if p2.startswith(cur + "::{closure")]:
+            callers |= set(cc.strip_closure(x.fn.path) for x in cg.callers_of(cl)) - {cur}
+        if len(callers) != 1:
+            break
+        cur = callers.pop()
+    _OWNER["memo"][path] = cur
+    return cur
+
+
 def site_key(entry, s):
-    fn = s["fn"].split("::")[-1] if "<" not in s["fn"].split("::")[-1] else s["fn"]
-    fn = re.sub(r"^rustzx_core::|^vtx::|^rustzx_utils::", "", s["fn"])
+    fn = re.sub(r"^rustzx_core::|^vtx::|^rustzx_utils::", "", owner_fn(s["fn"]))
     kind = s["kind"]
     det = ""
     if "index" in s and isinstance(s["index"], T):
@@ -67,6 +95,7 @@ def run(chk):
     chk.rule("ALLOC", "no allocation size tainted by asset bytes without a dominating bound")
     chk.rule("EOF", "a loop consuming an opaque read leaves when the read returns 0")
     reviewed = load_reviewed()
+    _OWNER["prog"], _OWNER["cg"], _OWNER["memo"] = prog, cc.scans(prog)[0], {}
     deep = chk.tier == 'thorough'     # deeper unrolling of the loaders' loops
     inv = {}
     from . import tapeinv
